@@ -162,11 +162,11 @@ Print Assumptions C17_manifest_push_buffered.
    an ordinary request of the auth client): every request of the PUT carries the blob as far
    as the registry reads it, at the script position after the POST's requests *)
 Theorem C17_blob_push_bodies :
-  forall authc p cn bd sc,
+  forall authc warm0 p cn bd sc,
     wf_body bd ->
-    match u_put (blob_push authc p cn bd sc) with
+    match u_put (blob_push_gen authc warm0 p cn bd sc) with
     | Some put => forall i t got, nth_error (auth_attempts put) i = Some (t, got) ->
-        got = received bd (nth (length (auth_attempts (u_post (blob_push authc p cn bd sc))) + i) sc default_beh)
+        got = received bd (nth (length (auth_attempts (u_post (blob_push_gen authc warm0 p cn bd sc))) + i) sc default_beh)
     | None => True
     end.
 Proof. exact blob_push_bodies. Qed.
@@ -174,9 +174,9 @@ Print Assumptions C17_blob_push_bodies.
 
 (* a one-shot blob reaches the registry in exactly one request of the PUT *)
 Theorem C17_blob_push_oneshot_once :
-  forall authc p cn bd sc,
+  forall authc warm0 p cn bd sc,
     (forall st', rewind bd st' = RwNoGetBody \/ rewind bd st' = RwGetBodyErr) ->
-    match u_put (blob_push authc p cn bd sc) with
+    match u_put (blob_push_gen authc warm0 p cn bd sc) with
     | Some put => length (auth_attempts put) = 1%nat
     | None => True
     end.
@@ -224,8 +224,8 @@ Print Assumptions C17_cancel_auth.
 
 (* ... and through a blob push (POST, then PUT) *)
 Theorem C17_cancel_blob_push :
-  forall authc p bd sc tc dl,
-    let u := blob_push authc p (Some (tc, dl)) bd sc in
+  forall authc warm0 p bd sc tc dl,
+    let u := blob_push_gen authc warm0 p (Some (tc, dl)) bd sc in
     sends_cancel_post tc 0 (u_res u) (u_time u) (u_post u) /\
     u_time u <= Z.max 0 tc /\
     match u_put u with
